@@ -145,6 +145,14 @@ def gen_encs(r, mode, pattern, vector="mix", share=True):
         # sequential mode merges the runs along 'id': vector parameters must all have one length
         w = max(vecs)
         vecs = [w if v else 0 for v in vecs]
+    # sometimes one parameter with a name of its own is a setting of the DETECTOR (key 'detector.environment.
+    # temperature', values 1..12) instead of a model argument: same binding, another kind of key
+    tslot = None
+    singles = [k for k, g in enumerate(pattern) if pattern.count(g) == 1]
+    if n >= 2 and singles and r.random() < 0.3:
+        tslot = r.choice(singles)
+        vecs[tslot] = 0
+        layout[tslot] = [layout[tslot][0], "T"]
     case = dict(kind="encs", mode=mode, layout=layout, pattern="".join(map(str, pattern)),
                 sleep_scale=r.choice([0.0, 0.02, 0.04]), sleep_mult=r.randrange(1, 5))
     if mode == "custom":
@@ -156,7 +164,13 @@ def gen_encs(r, mode, pattern, vector="mix", share=True):
             if tuple(row) not in seen:
                 seen.add(tuple(row))
                 rows.append(row)
+        if tslot is not None:
+            col = sum(1 if p["w"] is None else p["w"] for p in ps[:tslot])
+            for row in rows:
+                row[col] = 1 + row[col] % 12
         case.update(params=ps, table=rows, defaults=[(0 if p["w"] is None else [0] * p["w"]) for p in ps])
+        if tslot is not None:
+            case["defaults"][tslot] = 5
     else:
         cap = {1: 4, 2: 3, 3: 3, 4: 2}[n]
         ps = [dict(values=gen_values(r, v, r.randrange(1, cap + 1), sorted_=(r.random() < 0.3),
@@ -166,6 +180,12 @@ def gen_encs(r, mode, pattern, vector="mix", share=True):
             ps[k] = dict(values=gen_values(r, vecs[k], 2))
         case.update(params=ps, defaults=[([r.randrange(0, 13) for _ in range(v)] if v else r.randrange(0, 13))
                                          for v in vecs])
+        if tslot is not None:
+            vals = sorted({1 + v % 12 for v in ps[tslot]["values"]}, key=lambda v: r.random())
+            ps[tslot] = dict(values=vals)
+            case["defaults"][tslot] = 1 + case["defaults"][tslot] % 12
+    if tslot is not None:
+        case["detector_key"] = tslot
     return case
 
 
@@ -463,6 +483,7 @@ def account(ctx: Ctx, subs):
             ctx.dist("colliding name listed after another parameter", shaped)
             keys = [f"m{j}.{a}" for j, a in c["layout"]]
             ctx.dist("keys listed in alphabetical order", keys == sorted(keys))
+            ctx.dist("one key is a detector setting", "detector_key" in c)
         if c["kind"] in ("enc", "encs", "draw"):
             ctx.dist("mode/nparams", f"{c['mode']}/{len(c['params'])}")
             ctx.dist("outputs", bool(files is not None))
